@@ -117,6 +117,12 @@ RingInside(c, rd) ==
 BigPlanOK(c, o) ==
   LET k == o.shrink rs == o.roi_src rd == o.roi_dst IN
   IF k < 1 THEN "read_shrink_not_a_positive_integer"
+  ELSE IF "huge" \in DOMAIN c THEN      \* only destination pixel (0, 0) can be evaluated within 32 bits - and it is the needed one
+       (IF ~MapsInsideD(c, 0, 0) THEN "model:huge_case_construction"
+        ELSE IF ~InRoi(rd, 0, 0) THEN "needed_destination_pixel_outside_destination_region"
+        ELSE IF ~InRoi(rs, SrcPixD(c, <<0, 0>>)[1], SrcPixD(c, <<0, 0>>)[2]) THEN "source_location_of_needed_pixel_outside_source_region"
+        ELSE IF ~(0 <= rs[1] /\ rs[1] <= rs[2] /\ rs[2] <= AlignUp(c.hs, k) /\ 0 <= rs[3] /\ rs[3] <= rs[4] /\ rs[4] <= AlignUp(c.ws, k)) THEN "source_region_outside_image"
+        ELSE "ok")
   ELSE IF ~(0 <= rd[1] /\ rd[1] <= rd[2] /\ rd[2] <= c.hd /\ 0 <= rd[3] /\ rd[3] <= rd[4] /\ rd[4] <= c.wd) THEN "destination_region_outside_image"
   ELSE IF ~(0 <= rs[1] /\ rs[1] <= rs[2] /\ rs[2] <= AlignUp(c.hs, k) /\ 0 <= rs[3] /\ rs[3] <= rs[4] /\ rs[4] <= AlignUp(c.ws, k)) THEN "source_region_outside_image"
   ELSE IF \E p \in RingOutside(c, rd) : MapsInsideD(c, p[1], p[2]) THEN "needed_destination_pixel_outside_destination_region"
